@@ -1,5 +1,6 @@
 import CentrifugeVerif.DriverLib
 import CentrifugeVerif.Model.Queue
+import CentrifugeVerif.Model.Writer
 /-!
 Driver for C12.  Two op families (one output line per op):
 
@@ -41,7 +42,7 @@ def fmtOpt (r : Option (List Item)) : String :=
 
 structure St where
   tq : TimedQ := { q := RingQ.new 1, now := 0, deadline := none }
-  started : Bool := false
+  sim : Writer.Sim := Writer.Sim.init Writer.Cfg.default
 
 def qStep (t : TimedQ) (ws : List String) : TimedQ × String :=
   let fin (t' : TimedQ) (res : String) : TimedQ × String := (t', res ++ " " ++ fmtQ t'.q)
@@ -92,9 +93,73 @@ def qStep (t : TimedQ) (ws : List String) : TimedQ × String :=
     fin t' ("rem=" ++ fmtIds r)
   | _ => (t, "bad-op")
 
+open Writer in
+/-- the raw parameters of `newWriter`/`run` mapped as the Go code does (`0 ↦ 2`, `0 ↦ 16`,
+`effectiveShrinkDelay`, mode selection) -/
+def cfgOfRaw (delay : Nat) (timer : Bool) (max : Int) (shrink : Int) (maxq cap : Nat) : Cfg :=
+  { mode := if 0 < delay ∧ timer then .timer else if 0 < delay then .delay else .direct,
+    writeDelay := delay,
+    maxFrame := if max = 0 then 16 else max,
+    shrinkDelay := if shrink = 0 then 1000 else if shrink < 0 then 0 else shrink.toNat,
+    maxQueueSize := maxq,
+    initCap := if cap = 0 then 2 else cap }
+
+open Writer in
+def fmtCall : TEntry → String
+  | .call items many ok => (if many then "WM" else "W") ++ (if ok then "" else "F") ++ fmtIds items
+  | .direct x => "W" ++ fmtIds [x]
+
+open Writer in
+def fmtTx (es : List TEntry) : String :=
+  if es.isEmpty then "tx=-" else "tx=" ++ joinWith ";" (es.map fmtCall)
+
+open Writer in
+def fmtRes : Res → String
+  | .ok => "ok" | .slow => "slow" | .connClosed => "closed"
+
+open Writer in
+def wStep (s : Sim) (ws : List String) : Sim × String :=
+  let report (s0 s1 : Sim) (withRes : Bool) : Sim × String :=
+    let newTx := s1.w.tx.drop s0.w.tx.length
+    let res := if withRes then
+        (match s1.w.results.getLast? with | some (_, r, _) => "res=" ++ fmtRes r ++ " " | none => "res=? ")
+      else ""
+    (s1, res ++ fmtTx newTx ++ s!" qlen={s1.w.q.cnt}")
+  match ws with
+  | "new" :: rest =>
+    match kvNat rest "delay", kvNat rest "timer", kvInt rest "max", kvInt rest "shrink", kvNat rest "maxq",
+          kvNat rest "cap", kvNat rest "conc" with
+    | some d, some t, some m, some sh, some mq, some cp, some cc =>
+      let s' : Sim := { Sim.init (cfgOfRaw d (t != 0) m sh mq cp) with conc := cc != 0 }
+      (s', if s'.conc then "skip" else "new")
+    | _, _, _, _, _, _, _ => (s, "bad-op")
+  | _ =>
+    if s.conc then (s, "skip") else
+    match ws with
+    | ["enq", w] =>
+      match parseItem w with
+      | some x => report s (s.add [x] false) true
+      | none => (s, "bad-op")
+    | "enqmany" :: rest =>
+      match parseItems rest with
+      | some xs => report s (s.add xs true) true
+      | none => (s, "bad-op")
+    | ["sleep", d] =>
+      match d.toNat? with
+      | some dl => report s (Sim.sleep (dl + 2) s (s.w.now + dl)) false
+      | none => (s, "bad-op")
+    | ["close", f] => report s (s.ext (.close (f != "0"))) false
+    | ["direct", w] =>
+      match parseItem w with
+      | some x => report s ({ s with failNext := false }.ext (.direct x (!s.failNext))) false
+      | none => (s, "bad-op")
+    | ["failnext"] => ({ s with failNext := true }, "failnext")
+    | _ => (s, "bad-op")
+
 def step (s : St) (line : String) : St × String :=
   match words line with
   | "q" :: rest => let (t', o) := qStep s.tq rest; ({ s with tq := t' }, o)
+  | "w" :: rest => let (sim', o) := wStep s.sim rest; ({ s with sim := sim' }, o)
   | _ => (s, "bad-op")
 
 def main : IO Unit := runState step {}
